@@ -15,7 +15,7 @@ import sys
 from harness import core, npc, npc_check, npc_ctor, tlc, tlaval
 
 TIERS = {
-    'quick': dict(n_configs=5, mc_ops=1, sim_num=6, sim_ops=6, procs=4, workers=4, timeout=600),
+    'quick': dict(n_configs=6, mc_ops=1, sim_num=12, sim_ops=6, procs=4, workers=4, timeout=600),
     'thorough': dict(n_configs=40, mc_ops=1, sim_num=40, sim_ops=8, procs=4, workers=4, timeout=1500),
 }
 
@@ -71,7 +71,7 @@ def check(ctx):
                 ctx.transitions += r[stage]['summary']['transitions']
                 ctx.mc_runs.append(dict(name='NpcProgram[%s cfg%d]' % (stage, r['idx']), **r[stage]['summary']))
         for b in r['behaviours']:
-            b['variant'] = (len(behs) + ctx.seed) % 3
+            b['variant'] = (len(behs) + ctx.seed) % 4
             # dtype of the initial tensors: float64/complex128, float32/complex64 or int64 (values are small integers, so
             # every dtype represents them exactly and both configurations must agree bit for bit, including the dtype)
             b['dtype_variant'] = ((len(behs) + ctx.seed) // 3) % 3
